@@ -18,13 +18,14 @@ Theorem c10_silent_skip : forall p hs hs', build p (hs ++ empty_holder :: hs') =
 Proof. exact build_skip_empty. Qed.
 Print Assumptions c10_silent_skip.
 
-(** Known findings: internal errors escape on parser-reachable trees. *)
-Theorem c10_refuted_merge_values :
-  analyze (mk_env "ansi" "" "" {| p_truthy := false; p_cols := [] |} []) false w_merge_values = Err EIndex.
-Proof. vm_compute. reflexivity. Qed.
-Print Assumptions c10_refuted_merge_values.
+(** Regression witnesses for fixes F6 / F7: these parser-reachable trees used to make the extractors index
+    past the end of a list (IndexError); the analysis now returns a holder. *)
+Theorem c10_merge_values_no_error :
+  exists g, analyze (mk_env "ansi" "" "" {| p_truthy := false; p_cols := [] |} []) false w_merge_values = Ok g.
+Proof. eexists. vm_compute. reflexivity. Qed.
+Print Assumptions c10_merge_values_no_error.
 
-Theorem c10_refuted_vertica_swap :
-  analyze (mk_env "vertica" "" "" {| p_truthy := false; p_cols := [] |} []) false w_vertica_swap = Err EIndex.
+Theorem c10_vertica_swap_no_error :
+  analyze (mk_env "vertica" "" "" {| p_truthy := false; p_cols := [] |} []) false w_vertica_swap = Ok empty_graph.
 Proof. vm_compute. reflexivity. Qed.
-Print Assumptions c10_refuted_vertica_swap.
+Print Assumptions c10_vertica_swap_no_error.
